@@ -29,7 +29,7 @@ theorem marked_unsafe_never_invoked (o : Obj)
   simp [marked_unsafe_rejected o h]
 
 -- non-vacuity: unmarked callables go through; both markers are honoured independently
-example : Sandboxed_call ⟨[], []⟩ = .invoke ∧ Sandboxed_call ⟨[], ["alters_data"]⟩ = .securityError ∧
-    Sandboxed_call ⟨[], ["unsafe_callable"]⟩ = .securityError := by decide +kernel
+example : Sandboxed_call ⟨[], [], []⟩ = .invoke ∧ Sandboxed_call ⟨[], ["alters_data"], []⟩ = .securityError ∧
+    Sandboxed_call ⟨[], ["unsafe_callable"], []⟩ = .securityError := by decide +kernel
 
 end JinjaV.C18
